@@ -102,6 +102,8 @@ for _pid, _mods in {"C02": ["CachedProofs.LayerB.History"],                     
 for _pid in ("C12", "C13", "C18"):      # quiescent and the worker alive: every acknowledgement resolved; stability; the dead-worker counterexample
     EXTRA_MODULES[_pid] = EXTRA_MODULES.get(_pid, []) + ["CachedProofs.LayerB.AcksResolved"]
 EXTRA_MODULES["C17"] = EXTRA_MODULES.get("C17", []) + ["CachedProofs.LayerB.ClosedRunning"]      # used <= i64Max from Reach; the closed theorem for runs without shutdown(), not vacuous at maxWeight = i64::MAX
+for _pid in ("C18", "C02"):      # shutdown()'s own send is let in by the worker's recv too; the iterator scenarios on a REACHABLE state
+    EXTRA_MODULES[_pid] = EXTRA_MODULES.get(_pid, []) + ["CachedProofs.LayerB.ReviewSmall"]
 for _pid in ("C02", "C13", "C06"):      # multi-key reads after the flag under every interleaving; the admission rule per worker action
     EXTRA_MODULES[_pid] = EXTRA_MODULES.get(_pid, []) + ["CachedProofs.LayerB.MgetShutdown"]
 for _pid in ("C02", "C04", "C09", "C13", "C15", "C16"):      # a `next()` of an iterator kept open IS the model's `get`; drained at once it is the multi-key read
